@@ -258,7 +258,7 @@ func (c04Suite) Gen(rng *Rng, tier string, w *bufio.Writer, stats *Stats) {
 		n++
 		fmt.Fprintf(w, "# case %d %s %s\n", n, t.Site, t.ID)
 		fmt.Fprintf(w, "t %s %s %s\n", t.ID, enc, jsonQuote(s))
-		stats.Inc("gen." + t.Kind)
+		stats.Inc(t.Kind)
 	}
 	thorough := tier == "thorough"
 	fixed := c04Fixed()
@@ -411,6 +411,17 @@ func c04FromCypher(model *cypher.RegularQuery, mapper pgsql.KindMapper) (out str
 	return "(ok " + jsonQuote(f.Statement) + ")"
 }
 
+func c04NameCollides(query, name string) bool {
+	for _, w := range strings.FieldsFunc(query, func(r rune) bool {
+		return !(r == '_' || (r >= '0' && r <= '9') || (r >= 'a' && r <= 'z') || (r >= 'A' && r <= 'Z'))
+	}) {
+		if strings.EqualFold(w, name) {
+			return true
+		}
+	}
+	return false
+}
+
 func c04Trunc(s string) string {
 	s = strings.ReplaceAll(s, "\n", " ")
 	if len(s) > 120 {
@@ -444,6 +455,10 @@ func (r *c04Runner) Step(t []string, raw string) string {
 	braw, ok2 := c04Token(tmpl.Kind, enc, c04Benign)
 	if !ok1 || !ok2 {
 		return "(r (skip \"empty-name\"))"
+	}
+	if (tmpl.Kind == "ident" || tmpl.Kind == "kindname") && c04NameCollides(tmpl.Query, s) {
+		// the generated name is one the template itself binds (n, e, p, …): a different query, not a twin
+		return "(r (skip \"name-collision\"))"
 	}
 	var hres, bres, fc string
 	switch tmpl.Kind {
@@ -502,7 +517,7 @@ func (c04qSuite) Gen(rng *Rng, tier string, w *bufio.Writer, stats *Stats) {
 	}
 	for _, s := range all {
 		emit(s)
-		stats.Inc("gen.strings")
+		stats.Inc("strings")
 		// the same text as a (possibly malformed) Cypher literal token and as a back-ticked name
 		if len(s) < 4096 {
 			emit("'" + s + "'")
